@@ -5,12 +5,17 @@ use serde_json::Value;
 use std::sync::Arc;
 
 pub mod c03;
+pub mod c04;
 pub mod c05;
+pub mod c12;
+pub mod c16;
 pub mod kit;
 pub mod langkit;
 pub mod rules;
 
 pub struct Prop {
+    /// Run the exploration in a supervised child process (aborts and hangs are then attributed).
+    pub isolate: bool,
     pub level: &'static str,
     pub run: fn(&Cfg, &Arc<Sink>) -> Report,
     pub replay: fn(&Cfg, &Value, &Arc<Sink>),
@@ -18,12 +23,15 @@ pub struct Prop {
 
 pub fn lookup(id: &str) -> Option<Prop> {
     Some(match id {
-        "C03" => Prop { level: "model_checking", run: c03::run, replay: c03::replay },
-        "C05" => Prop { level: "model_checking", run: c05::run, replay: c05::replay },
-        "C06" => Prop { level: "model_checking", run: rules::run_c06, replay: rules::replay_c06 },
-        "C07" => Prop { level: "model_checking", run: rules::run_c07, replay: rules::replay_c07 },
-        "C08" => Prop { level: "model_checking", run: rules::run_c08, replay: rules::replay_c08 },
-        "C09" => Prop { level: "model_checking", run: rules::run_c09, replay: rules::replay_c09 },
+        "C03" => Prop { isolate: false, level: "model_checking", run: c03::run, replay: c03::replay },
+        "C04" => Prop { isolate: true, level: "model_checking", run: c04::run, replay: c04::replay },
+        "C05" => Prop { isolate: false, level: "model_checking", run: c05::run, replay: c05::replay },
+        "C06" => Prop { isolate: false, level: "model_checking", run: rules::run_c06, replay: rules::replay_c06 },
+        "C07" => Prop { isolate: false, level: "model_checking", run: rules::run_c07, replay: rules::replay_c07 },
+        "C08" => Prop { isolate: false, level: "model_checking", run: rules::run_c08, replay: rules::replay_c08 },
+        "C09" => Prop { isolate: false, level: "model_checking", run: rules::run_c09, replay: rules::replay_c09 },
+        "C12" => Prop { isolate: false, level: "model_checking", run: c12::run, replay: c12::replay },
+        "C16" => Prop { isolate: false, level: "model_checking", run: c16::run, replay: c16::replay },
         _ => return None,
     })
 }
